@@ -6,56 +6,137 @@ step, `db.setSeq(tr.seq)`, is `inv_done_tr`).
 -/
 namespace GoLevel.Dur
 
-/-- the parts of the invariant that do not look at `tr` -/
-theorem Inv.set_tr {cfg : Cfg} {s : St} {d : Disk} (h : Inv cfg s d) (hph : s.phase = .running)
-    (hjob : s.job = none) (t' : Option Grp) (htr : TrOK { s with tr := t' }) : Inv cfg { s with tr := t' } d := by
-  have hrun := h.run hph
-  have hb := h.bounds (by rw [hph]; decide)
-  constructor
-  · exact h.disk
-  · exact h.mm
-  · intro _
-    exact hb.of_same rfl (seqHi_le_of_not_window (not_trWindow_of_nojob hjob) (not_trWindow_of_nojob hjob)
-      (Nat.le_refl _)) (Nat.le_refl _) (fun _ => ⟨hph, Nat.le_refl _⟩)
-  · intro _
-    obtain ⟨r1, r2, r3, r4, r5, r6, r7, r8, r9⟩ := hrun
-    exact ⟨⟨r1.1, htr⟩, r2, r3, r4, r5, r6, r7, r8, r9⟩
-  · intro hc; rw [hph] at hc; cases hc
-  · intro hc; rw [hph] at hc; cases hc
-  · show Holds' s.job _
-    rw [hjob]; trivial
+theorem JournalHolds.of_nil {s : St} {jf : LogFile Grp} (b : Nat) (h : jf.all = []) : JournalHolds s jf [] b := by
+  refine ⟨fun x hx => (by cases hx), fun x hx _ => ?_, fun x hx => ?_, fun _ => h, fun _ x hx => ?_⟩
+  · rw [h] at hx; cases hx
+  · rw [h] at hx; cases hx
+  · rw [h] at hx; cases hx
 
-/-- `Discard`: the transaction is gone, `db.seq` moves past the numbers it used -/
-theorem Inv.discard_tr {cfg : Cfg} {s : St} {d : Disk} (h : Inv cfg s d) (hph : s.phase = .running)
-    (hjob : s.job = none) {g : Grp} (hg : s.tr = some g) (q' h' : Nat) (hq : s.seq ≤ q') :
-    Inv cfg { s with tr := none, seq := q', hi := h' } d := by
+theorem Stale.of_nil {s : St} {jf : LogFile Grp} (h : jf.all = []) : Stale s jf := by
+  refine ⟨fun x hx => ?_, fun _ => h, fun _ => h⟩
+  rw [h] at hx; cases hx
+
+/-- a change of the state that leaves the writer idle with an empty buffer, nothing frozen and no job, while
+    every journal the next `Open` would replay is empty -/
+theorem Inv.tr_frame {cfg : Cfg} {s s' : St} {d : Disk} (h : Inv cfg s d) (hph : s.phase = .running)
+    (hjob : s.job = none) (hw : s.w = .idle) (hmem : s.mem = []) (hfz : s.frozen = none)
+    (hjc : ∀ jf, lookup d.journals s.jcur = some jf → jf.all = [])
+    (hst : ∀ mf v0, curManifest d = some mf → viewAt cfg mf 0 = some v0 → ∀ p ∈ d.journals, v0.jn ≤ p.1 →
+      Stale s p.2 → p.2.all = [])
+    (e1 : s'.phase = s.phase) (e2 : s'.job = s.job) (e3 : s'.w = s.w) (e4 : s'.mem = s.mem) (e5 : s'.frozen = s.frozen)
+    (e6 : s'.jfrozen = s.jfrozen) (e7 : s'.jcur = s.jcur) (e8 : s'.nextFile = s.nextFile) (e9 : s'.live = s.live)
+    (e10 : s'.stJn = s.stJn) (e11 : s'.stSq = s.stSq) (e12 : s'.manifestFd = s.manifestFd)
+    (e13 : s'.manifestOpen = s.manifestOpen) (e14 : s'.recov = s.recov) (e15 : s'.issued = s.issued)
+    (hq : s.seq ≤ s'.seq) (htr : TrOK s') : Inv cfg s' d := by
   have hrun := h.run hph
   have hb := h.bounds (by rw [hph]; decide)
-  have htr := hrun.norecov.2
-  unfold TrOK at htr
-  rw [hg] at htr
-  obtain ⟨hw, hmem, hfz, _, _⟩ : s.w = .idle ∧ s.mem = [] ∧ s.frozen = none ∧ g.seq = s.seq + 1 ∧ g.sync = true := htr
+  have hmust : must s' = must s := by rw [must_eq, must_eq, e15, e3]
+  have hiss : issuedGrps s' = issuedGrps s := by unfold issuedGrps; rw [e15]
+  have hjob' : s'.job = none := by rw [e2]; exact hjob
   constructor
-  · exact h.disk
+  · rw [hmust, hiss]; exact h.disk
   · exact h.mm
   · intro _
-    exact hb.of_same rfl (seqHi_le_of_not_window (not_trWindow_of_nojob hjob) (not_trWindow_of_nojob hjob) hq)
-      (Nat.le_refl _) (fun _ => ⟨hph, Nat.le_refl _⟩)
+    exact hb.of_same rfl (seqHi_le_of_not_window (not_trWindow_of_nojob hjob) (not_trWindow_of_nojob hjob') hq)
+      (by rw [e8]; exact Nat.le_refl _) (fun _ => ⟨hph, by rw [e7]; exact Nat.le_refl _⟩)
   · intro _
     obtain ⟨r1, r2, r3, r4, r5, r6, r7, r8, r9⟩ := hrun
-    refine ⟨⟨r1.1, trivial⟩, r2, r3, r4, r5, ?_, ?_, r8, r9⟩
+    refine ⟨⟨by rw [e14]; exact r1.1, htr⟩, ⟨?_, by rw [e13]; exact r2.2⟩, ?_, by rw [e7]; exact r4,
+      by rw [e8]; exact r5, ?_, ?_, ?_, fun _ => ?_⟩
+    · have := r2.1
+      unfold MfdOK at this ⊢
+      rw [hjob] at this
+      rw [hjob', e12]
+      exact this
+    · rw [e7, e4, e3, hmem, hw]
+      rw [holds_iff] at r3 ⊢
+      obtain ⟨jf, hjf, _⟩ := r3
+      exact ⟨jf, hjf, JournalHolds.of_nil _ (hjc jf hjf)⟩
     · show WSeqOK _
-      simp only [WSeqOK, hw, hmem]
+      simp only [WSeqOK, e3, hw, e4, hmem]
       intro x hx; cases hx
-    · rcases frozenOK_iff.1 r7 with ⟨h1, h2⟩ | ⟨fz, jf, h1, _⟩
-      · exact frozenOK_iff.2 (Or.inl ⟨h1, h2⟩)
+    · apply frozenOK_iff.2
+      rcases frozenOK_iff.1 r7 with ⟨h1, h2⟩ | ⟨fz, jf, h1, _⟩
+      · exact Or.inl ⟨by rw [e5]; exact h1, by rw [e6]; exact h2⟩
       · rw [hfz] at h1; cases h1
-  · intro hc; rw [hph] at hc; cases hc
-  · intro hc; rw [hph] at hc; cases hc
-  · show Holds' s.job _
-    rw [hjob]; trivial
+    · rw [holds_iff] at r8 ⊢
+      obtain ⟨mf1, hmf1, r8⟩ := r8
+      refine ⟨mf1, hmf1, ?_⟩
+      rw [holds_iff] at r8 ⊢
+      obtain ⟨v1, hv1, r8⟩ := r8
+      refine ⟨v1, hv1, fun p hp hge => ?_⟩
+      rcases r8 p hp hge with h1 | h1 | h1
+      · exact Or.inl (by rw [e7]; exact h1)
+      · exact Or.inr (Or.inl (by rw [e6]; exact h1))
+      · exact Or.inr (Or.inr (Stale.of_nil (hst mf1 v1 hmf1 hv1 p hp hge h1)))
+    · have := r9 hjob
+      unfold Settled at this ⊢
+      refine this.imp (fun mf1 hmf1 => ⟨fun ho => hmf1.1 (by rw [← e13]; exact ho), hmf1.2.imp (fun v hv => ?_)⟩)
+      exact ⟨by rw [e9]; exact hv.1, by rw [e10]; exact hv.2.1, by rw [e11]; exact hv.2.2⟩
+  · intro hc; rw [e1, hph] at hc; cases hc
+  · intro hc; rw [e1, hph] at hc; cases hc
+  · show Holds' s'.job _
+    rw [hjob']; trivial
+
+/-- with a transaction open every journal the next `Open` would replay is empty -/
+theorem Inv.tr_journals_empty {cfg : Cfg} {s : St} {d : Disk} (h : Inv cfg s d) (hph : s.phase = .running)
+    {g : Grp} (hg : s.tr = some g) :
+    (∀ jf, lookup d.journals s.jcur = some jf → jf.all = []) ∧
+    (∀ mf v0, curManifest d = some mf → viewAt cfg mf 0 = some v0 → ∀ p ∈ d.journals, v0.jn ≤ p.1 →
+      Stale s p.2 → p.2.all = []) := by
+  have hrun := h.run hph
+  have hsome : s.tr.isSome = true := by rw [hg]; rfl
+  refine ⟨fun jf hjf => ?_, fun _ _ _ _ p _ _ hs => hs.2.1 hsome⟩
+  have := hrun.jcur
+  rw [hjf] at this
+  exact this.2.2.2.1 hsome
+
+theorem Inv.tr_running {cfg : Cfg} {s : St} {d : Disk} (h : Inv cfg s d) {g : Grp} (hg : s.tr = some g) :
+    s.phase = .running := by
+  rcases hp : s.phase with _ | _ | _
+  · have := (h.crashed hp).2.2.2; rw [hg] at this; cases this
+  · have := h.recov hp
+    rw [holds_iff] at this
+    obtain ⟨r, _, hr⟩ := this
+    have := hr.idle.2.2; rw [hg] at this; cases this
+  · rfl
+
+/-- if no journal operation of the write path has ever failed, an idle DB with an empty buffer has only empty
+    journals left to replay -/
+theorem Inv.clean_of_neverFailed {cfg : Cfg} {s : St} {d : Disk} (h : Inv cfg s d) (hph : s.phase = .running)
+    (hjob : s.job = none) (hw : s.w = .idle) (hmem : s.mem = []) (hfz : s.frozen = none)
+    (hef : s.everFailed = false) : ∀ p ∈ d.journals, s.stJn ≤ p.1 → p.2.all = [] := by
+  intro p hp hge
+  have hrun := h.run hph
+  have hsett := hrun.nojob hjob
+  unfold Settled at hsett
+  rw [holds_iff] at hsett
+  obtain ⟨mf, hcur, hun, hlv⟩ := hsett
+  have hun := hun hrun.mfd.2
+  rw [holds_iff] at hlv
+  obtain ⟨v, hv, hmir⟩ := hlv
+  have hv0 : viewAt cfg mf 0 = some v := by rw [lastView_eq hcur, hun] at hv; exact hv
+  have r1 := holds_some hrun.rel hcur
+  have r2 := holds_some r1 hv0
+  rcases r2 p hp (by rw [hmir.2.1]; exact hge) with h1 | h1 | h1
+  · have hl := hrun.jcur
+    rw [holds_iff] at hl
+    obtain ⟨jf, hjf, hall⟩ := hl
+    have : lookup d.journals p.1 = some p.2 := lookup_of_mem (sorted_nodup h.disk.jsorted) (by cases p; exact hp)
+    rw [h1, hjf] at this
+    cases this
+    apply List.eq_nil_iff_forall_not_mem.2
+    intro x hx
+    have := hall.2.2.2.2 hef x hx
+    rw [hmem, hw] at this
+    cases this
+  · rcases frozenOK_iff.1 hrun.frozen with ⟨_, h4⟩ | ⟨fz, jf, h4, _⟩
+    · rw [h4] at h1; cases h1
+    · rw [hfz] at h4; cases h4
+  · exact h1.2.2 hef
 
 theorem inv_stepTr {cfg : Cfg} {s : St} {d : Disk} (h : Inv cfg s d) {a : Act} {s' : St}
+    (hclean : a = .trBegin → s.everFailed = false ∨ ∀ p ∈ d.journals, s.stJn ≤ p.1 → p.2.all = [])
     (hs : stepTr s a = some s') : Inv cfg s' d := by
   cases a with
   | trBegin =>
@@ -65,7 +146,30 @@ theorem inv_stepTr {cfg : Cfg} {s : St} {d : Disk} (h : Inv cfg s d) {a : Act} {
       obtain ⟨hph, hw, hmem, hfz, hjob, _⟩ := hg
       simp only [Option.some.injEq] at hs
       subst hs
-      exact h.set_tr hph hjob _ ⟨hw, hmem, hfz, rfl, rfl⟩
+      have hrun := h.run hph
+      have hb := h.bounds (by rw [hph]; decide)
+      have hcl : ∀ p ∈ d.journals, s.stJn ≤ p.1 → p.2.all = [] := by
+        rcases hclean rfl with h1 | h1
+        · exact h.clean_of_neverFailed hph hjob hw hmem hfz h1
+        · exact h1
+      -- the single view of the manifest is the session's
+      have hsett := hrun.nojob hjob
+      unfold Settled at hsett
+      rw [holds_iff] at hsett
+      obtain ⟨mf, hcur, hun, hlv⟩ := hsett
+      have hun := hun hrun.mfd.2
+      rw [holds_iff] at hlv
+      obtain ⟨v, hv, hmir⟩ := hlv
+      have hv0 : viewAt cfg mf 0 = some v := by rw [lastView_eq hcur, hun] at hv; exact hv
+      have hbv := hb.all mf hcur 0 (Nat.zero_le _) v hv0
+      refine h.tr_frame hph hjob hw hmem hfz ?_ ?_ rfl rfl rfl rfl rfl rfl rfl rfl rfl rfl rfl rfl rfl rfl rfl
+        (Nat.le_refl _) ⟨hw, hmem, hfz, rfl, rfl⟩
+      · intro jf hjf
+        exact hcl (s.jcur, jf) (lookup_some_mem hjf) (by rw [← hmir.2.1]; exact hbv.2.2 hph)
+      · intro mf1 v1 hc1 hv1 p hp hge _
+        rw [hcur] at hc1; cases hc1
+        rw [hv0] at hv1; cases hv1
+        exact hcl p hp (by rw [← hmir.2.1]; exact hge)
     · cases hs
   | trPut recs =>
     simp only [stepTr] at hs
@@ -75,18 +179,13 @@ theorem inv_stepTr {cfg : Cfg} {s : St} {d : Disk} (h : Inv cfg s d) {a : Act} {
       · rename_i hjob
         simp only [Option.some.injEq] at hs
         subst hs
-        have hph : s.phase = .running := by
-          rcases hp : s.phase with _ | _ | _
-          · have := (h.crashed hp).2.2.2; rw [hg] at this; cases this
-          · have := h.recov hp
-            rw [holds_iff] at this
-            obtain ⟨r, _, hr⟩ := this
-            have := hr.idle.2.2; rw [hg] at this; cases this
-          · rfl
+        have hph := h.tr_running hg
         have htr := (h.run hph).norecov.2
         unfold TrOK at htr
         rw [hg] at htr
-        exact h.set_tr hph hjob _ htr
+        obtain ⟨hjc, hst⟩ := h.tr_journals_empty hph hg
+        exact h.tr_frame hph hjob htr.1 htr.2.1 htr.2.2.1 hjc hst rfl rfl rfl rfl rfl rfl rfl rfl rfl rfl rfl rfl rfl
+          rfl rfl (Nat.le_refl _) htr
       · cases hs
     · cases hs
   | trDiscard =>
@@ -97,15 +196,13 @@ theorem inv_stepTr {cfg : Cfg} {s : St} {d : Disk} (h : Inv cfg s d) {a : Act} {
       · rename_i hjob
         simp only [Option.some.injEq] at hs
         subst hs
-        have hph : s.phase = .running := by
-          rcases hp : s.phase with _ | _ | _
-          · have := (h.crashed hp).2.2.2; rw [hg] at this; cases this
-          · have := h.recov hp
-            rw [holds_iff] at this
-            obtain ⟨r, _, hr⟩ := this
-            have := hr.idle.2.2; rw [hg] at this; cases this
-          · rfl
-        exact h.discard_tr hph hjob hg _ _ (Nat.le_max_left _ _)
+        have hph := h.tr_running hg
+        have htr := (h.run hph).norecov.2
+        unfold TrOK at htr
+        rw [hg] at htr
+        obtain ⟨hjc, hst⟩ := h.tr_journals_empty hph hg
+        exact h.tr_frame hph hjob htr.1 htr.2.1 htr.2.2.1 hjc hst rfl rfl rfl rfl rfl rfl rfl rfl rfl rfl rfl rfl rfl
+          rfl rfl (Nat.le_max_left _ _) trivial
       · cases hs
     · cases hs
   | trCommit =>
@@ -115,18 +212,17 @@ theorem inv_stepTr {cfg : Cfg} {s : St} {d : Disk} (h : Inv cfg s d) {a : Act} {
       split at hs
       · rename_i hjob
         have hph : s.phase = .running := by
-          rcases hp : s.phase with _ | _ | _
-          · have := (h.crashed hp).2.2.2; rw [hg] at this; cases this
-          · have := h.recov hp
-            rw [holds_iff] at this
-            obtain ⟨r, _, hr⟩ := this
-            have := hr.idle.2.2; rw [hg] at this; cases this
-          · rfl
+          exact h.tr_running hg
+        obtain ⟨hjc, hst⟩ := h.tr_journals_empty hph hg
         split at hs
         · -- nothing to commit
           simp only [Option.some.injEq] at hs
           subst hs
-          exact h.set_tr hph hjob none trivial
+          have htr0 := (h.run hph).norecov.2
+          unfold TrOK at htr0
+          rw [hg] at htr0
+          exact h.tr_frame hph hjob htr0.1 htr0.2.1 htr0.2.2.1 hjc hst rfl rfl rfl rfl rfl rfl rfl rfl rfl rfl rfl rfl
+            rfl rfl rfl (Nat.le_refl _) trivial
         · rename_i hne
           have hgne : g.recs ≠ [] := by simpa using hne
           simp only [Option.some.injEq] at hs
@@ -160,9 +256,27 @@ theorem inv_stepTr {cfg : Cfg} {s : St} {d : Disk} (h : Inv cfg s d) {a : Act} {
               (not_trWindow_of_bc rfl rfl) (Nat.le_refl _)) (Nat.le_succ _) (fun _ => ⟨hph, Nat.le_refl _⟩)
           · intro _
             obtain ⟨r1, r2, r3, r4, r5, r6, r7, r8, r9⟩ := hrun
-            refine ⟨r1, ⟨?_, r2.2⟩, r3, r4, ⟨fun p hp => Nat.lt_succ_of_lt (r5.1 p hp),
-              r5.2.imp (fun m hm => Nat.lt_succ_of_lt hm)⟩, ?_, ?_, r8, fun hc => by cases hc⟩
+            refine ⟨r1, ⟨?_, r2.2⟩, ?_, r4, ⟨fun p hp => Nat.lt_succ_of_lt (r5.1 p hp),
+              r5.2.imp (fun m hm => Nat.lt_succ_of_lt hm)⟩, ?_, ?_, ?_, fun hc => by cases hc⟩
             · show MfdOK _ d; unfold MfdOK; exact hmfd
+            · show Holds (lookup d.journals s.jcur) _
+              rw [holds_iff] at r3 ⊢
+              obtain ⟨jf, hjf, _⟩ := r3
+              refine ⟨jf, hjf, ?_⟩
+              show JournalHolds _ jf (s.mem ++ inflight s.w) s.seq
+              rw [hmem, hw]
+              exact JournalHolds.of_nil _ (hjc jf hjf)
+            rotate_left 2
+            · rw [holds_iff] at r8 ⊢
+              obtain ⟨mf1, hmf1, r8⟩ := r8
+              refine ⟨mf1, hmf1, ?_⟩
+              rw [holds_iff] at r8 ⊢
+              obtain ⟨v1, hv1, r8⟩ := r8
+              refine ⟨v1, hv1, fun p hp hge => ?_⟩
+              rcases r8 p hp hge with h1 | h1 | h1
+              · exact Or.inl h1
+              · exact Or.inr (Or.inl h1)
+              · exact Or.inr (Or.inr (Stale.of_nil (hst mf1 v1 hmf1 hv1 p hp hge h1)))
             · have h6 := r6
               simp only [WSeqOK, hw] at h6 ⊢
               exact h6
